@@ -59,3 +59,16 @@ Print Assumptions C18_data_home_env.
 
 Example C18_example : resolve "no-such-dataset" = Raise ValueError /\ resolve "sandvine_nothing" = Raise ValueError.
 Proof. exact unknown_example. Qed.
+
+(** ---- the name dispatch of load_dataset and the data-home resolution, REGENERATED from datasets/_base.py (Gen/Dispatch.v),
+     are the model's ---- *)
+From TW Require Import Gen.Dispatch.
+Theorem C18_generated_dispatch : forall d, gen_fun_name d = fun_name d.
+Proof. exact gen_fun_name_eq. Qed.
+Print Assumptions C18_generated_dispatch.
+Theorem C18_generated_data_home : forall a e, gen_data_home a e = data_home a e.
+Proof. exact gen_data_home_eq. Qed.
+Print Assumptions C18_generated_data_home.
+Theorem C18_generated_constants : gen_unknown_exn = "ValueError" /\ gen_env_var = "TRAFFIC_WEAVER_DATA" /\ gen_default_home = "~/.traffic-weaver-data".
+Proof. exact gen_dispatch_constants. Qed.
+Print Assumptions C18_generated_constants.
